@@ -12,14 +12,14 @@ package influxql
 // the Target literal does not, which is the IsTarget defect).
 
 //@ func CloneRegexLiteral
-//@   props C14 C13
+//@   props C14 C13 C17
 //@   safety C13
 //@   modifies @ast
 //@   ensures r == nil ==> result == nil
 //@   ensures r != nil ==> result != nil && fresh(result) && (r.Val == nil ==> result.Val == nil) && (r.Val != nil ==> result.Val != nil)
 
 //@ func (*Measurement).Clone
-//@   props C14 C13
+//@   props C14 C13 C17
 //@   safety C13
 //@   modifies @ast
 //@   requires m != nil
@@ -28,7 +28,7 @@ package influxql
 //@   ensures (m.Regex == nil ==> result.Regex == nil) && (m.Regex != nil && m.Regex.Val != nil ==> result.Regex != nil && fresh(result.Regex))
 
 //@ func cloneSource
-//@   props C14 C13
+//@   props C14 C13 C17
 //@   safety C13
 //@   astparams
 //@   modifies @ast
@@ -38,7 +38,7 @@ package influxql
 //@   ensures istype(s, *Measurement) ==> result.(*Measurement).Name == s.(*Measurement).Name && result.(*Measurement).Database == s.(*Measurement).Database && result.(*Measurement).RetentionPolicy == s.(*Measurement).RetentionPolicy && result.(*Measurement).IsTarget == s.(*Measurement).IsTarget && result.(*Measurement).SystemIterator == s.(*Measurement).SystemIterator
 
 //@ func cloneSources
-//@   props C14 C13
+//@   props C14 C13 C17
 //@   safety C13
 //@   astparams
 //@   modifies @ast
@@ -48,7 +48,7 @@ package influxql
 //@   loop 1 invariant forall(i, 0, rangeindex + 1, notnil(clone[i]) && fresh(clone[i]) && clone[i].typ__ == sources[i].typ__ && (istype(clone[i], *SubQuery) ==> clone[i].(*SubQuery).Statement != nil))
 
 //@ func (*SelectStatement).Clone
-//@   props C14 C13
+//@   props C14 C13 C17
 //@   safety C13
 //@   modifies @ast
 //@   requires s != nil
